@@ -35,6 +35,7 @@ type plan struct {
 	lazy  bool   // server: DisablePreParseMultipartForm
 	strm  bool   // server: StreamRequestBody
 	pre   string // handler: something touches the body before the judged bind
+	hdrs  *presetHdrs
 }
 
 func (pl plan) cfg() srvCfg { return srvCfg{split: pl.split, lazy: pl.lazy, stream: pl.strm} }
@@ -88,9 +89,15 @@ type engine struct {
 // judge runs one round trip and reports a violation if the law does not hold.
 func (en *engine) judge(c *ev.Case, clause string, pl plan, val reflect.Value) string {
 	e := en.e
-	p := &probe{src: pl.src, op: pl.op, auto: pl.auto, typ: pl.typ, want: val, send: pl.send, pre: pl.pre}
+	p := &probe{src: pl.src, op: pl.op, auto: pl.auto, typ: pl.typ, want: val, send: pl.send, pre: pl.pre, hdrs: pl.hdrs}
 	o := en.g.getCfg(pl.cfg()).roundTrip(p)
 	e.Eval(1)
+	if pl.hdrs != nil {
+		e.Stat("preset_headers_"+pl.hdrs.where(), 1)
+		if pl.hdrs.hasContentType() {
+			e.Stat("preset_content_type_"+sourceName[pl.src], 1)
+		}
+	}
 	if pl.lazy {
 		e.Stat("server_lazy_multipart_"+sourceName[pl.src], 1)
 	}
@@ -139,6 +146,39 @@ func (en *engine) reportCfg(c *ev.Case, clause string, p *probe, o *outcome, cfg
 	e := en.e
 	split := cfg.split
 	m := o.manner()
+	if m != "panic" && p.hdrs != nil {
+		// Is it the headers set besides the value? The same request without them:
+		p0 := &probe{src: p.src, op: p.op, auto: p.auto, typ: p.typ, want: p.want, send: p.send, pre: p.pre}
+		o0 := en.g.getCfg(cfg).roundTrip(p0)
+		if o0.manner() == "" {
+			which := "other-header"
+			if p.hdrs.hasContentType() {
+				which = "Content-Type"
+			}
+			site := sourceName[p.src]
+			if p.op == "body" {
+				site += "+via-Body"
+			}
+			cls := map[string]string{"len-more": "extra-values", "len-fewer": "missing-values", "value": "changed-values"}[m]
+			if cls == "" {
+				cls = m
+			}
+			det := map[string]any{"source": sourceName[p.src], "binder": p.op, "type": p.typ.ID, "headers_set_by_the_application": p.hdrs.kvs, "set_where": p.hdrs.where(),
+				"sent": renderStruct(p.typ, p.want), "status": o.status, "note": "the same request without these headers round-trips"}
+			if p.diff != nil {
+				det["first_difference_at"] = p.diff.Path
+				det["got"] = p.got
+			}
+			if p.hasErr {
+				det["bind_error"] = p.bindErr
+			}
+			e.Violation(c, clause+"|"+site+"|preset-"+which+"|"+p.hdrs.where()+"|"+cls,
+				fmt.Sprintf("client -> %s -> Bind().%s fails (%s) when the application has also set %s at %s", sourceName[p.src], opTitle(p.op), m, which, p.hdrs.where()), det)
+			return
+		}
+		p, o = p0, o0
+		m = o.manner()
+	}
 	if m != "panic" && (!cfg.plain() || p.pre != "") {
 		// Does it take this server configuration / this handler prelude? The same request against the
 		// default configuration with a handler that only binds:
@@ -304,6 +344,7 @@ func run(e *ev.Env) {
 	en := &engine{e: e, g: newRigs()}
 	defer en.g.close()
 	e.Note("domain", domainNote)
+	e.Note("preset-headers", "a third of the round trips also carry application-set headers (Content-Type of another kind on body-carrying requests, Accept, User-Agent, a custom one) at client level or at request level before / after the value is handed over")
 	e.Note("sending", "text sources: the struct setters, or element-by-element AddParam/AddFormData/AddHeader/SetCookie calls (keys interleaved or together), or the map setters; multipart with 1-2 files via AddFileWithReader/AddFiles/AddFile, before or after the fields")
 	e.Note("nontrivial", "a round trip whose value has a string with a character outside [A-Za-z0-9] or a slice of length != 1; distinct by (source, splitting, value)")
 	e.Note("transport", "bundled client -> fasthttputil.InmemoryListener -> app.Listener; one app per EnableSplittingOnParsers setting per process (pooled contexts, binders and decoders are reused across cases, as in a real server)")
@@ -319,6 +360,7 @@ func run(e *ev.Env) {
 		budget := d.budget
 		val := genStruct(r, d, pl.typ, &budget)
 		pl.send = genSend(r, pl.src, pl.typ, val)
+		pl.hdrs = genPreset(r, pl.src)
 		en.judge(c, "roundtrip", pl, val)
 		if nontrivial(pl.typ, val) {
 			e.Nontrivial(sourceName[pl.src], strconv.FormatBool(pl.split), fmt.Sprint(val.Interface()))
@@ -525,7 +567,8 @@ func runRace(e *ev.Env) {
 					budget := d.budget / 4
 					val := genStruct(r, d, pl.typ, &budget)
 					pl.send = genSend(r, pl.src, pl.typ, val)
-					p := &probe{src: pl.src, op: pl.op, auto: pl.auto, typ: pl.typ, want: val, send: pl.send, pre: pl.pre}
+					pl.hdrs = genPreset(r, pl.src)
+					p := &probe{src: pl.src, op: pl.op, auto: pl.auto, typ: pl.typ, want: val, send: pl.send, pre: pl.pre, hdrs: pl.hdrs}
 					o := rg[g].getCfg(pl.cfg()).roundTrip(p)
 					trips[g]++
 					if pl.send != nil && pl.send.mode == sendClientThenReq {
